@@ -4,7 +4,7 @@ from .. import common, gen, mergecorr, ser
 
 TRUSTED_COMMON = [
     'Coq 8.16.1 kernel and vm_compute (used for FactsOk lemmas, finite sweeps, refutation witnesses and for evaluating the model in the generated case files); no native_compute',
-    'tools/extract_facts.py (T1 extractor for constants/tables), tools/translate_src.py (T1b Python-ast -> Gallina translator for the pure decision functions and the field-mutating prefixes of _replace_self / _replace_other / _propagate_implicit_values; its output is proved equal to the model in Proofs/SrcOk.v), tools/translate_merge.py (T1c: control skeletons of the four on_merge_impl methods over the model's primitives, API calls mapped by name; proved equal to the rules of Model/Merge.v in Proofs/SrcMergeOk.v), vlib/ser.py (Python node -> Coq term printer, string interning), vlib/gen.py (generators)',
+    'tools/extract_facts.py (T1 extractor for constants/tables), tools/translate_src.py (T1b Python-ast -> Gallina translator for the pure decision functions and the field-mutating prefixes of _replace_self / _replace_other / _propagate_implicit_values; its output is proved equal to the model in Proofs/SrcOk.v), tools/translate_merge.py (T1c: control skeletons of the four on_merge_impl methods over the primitives of the model, API calls mapped by name; proved equal to the rules of Model/Merge.v in Proofs/SrcMergeOk.v), vlib/ser.py (Python node -> Coq term printer, string interning), vlib/gen.py (generators)',
     'the hand-written Gallina model is tied to /repo by correspondence (sampled for tree recursion, exhaustive for finite flag logic), not by translation',
     'modelled, not verified: PyYAML (scanner/parser/composer/resolver/emitter), pickle/copy, CPython semantics, error message text',
 ]
